@@ -138,6 +138,9 @@ void build()
   NT("{val_1} {val2} {V}", "{} {} {}", false, ("val_1", "val2", "V"), ("", "", ""), I; D; S, i, d, s);
   NT("nospace{a}{b}{c}", "nospace{}{}{}", false, ("a", "b", "c"), ("", "", ""), I; I2; S, i, j, s);
   NT("line1 {a}\nline2 {b}", "line1 {}\nline2 {}", false, ("a", "b"), ("", ""), I; S, i, s);
+  NT("\nleading newline {a}", "\nleading newline {}", false, ("a"), (""), I, i);
+  NT("{a} trailing newline\n", "{} trailing newline\n", false, ("a"), (""), I, i);
+  NT("\n\n{a}\n\n{b}\n\n", "\n\n{}\n\n{}\n\n", false, ("a", "b"), ("", ""), I; I2, i, j);
   NT("{x:#x} {y:+} {s:>20} {d:10.2e}", "{:#x} {:+} {:>20} {:10.2e}", false, ("x", "y", "s", "d"), (":#x", ":+", ":>20", ":10.2e"), U; I; S; D, u, i, s, d);
   NT("{only}", "{}", false, ("only"), (""), S, s);
   NT("{a}{{}}{b}", "{}{{}}{}", false, ("a", "b"), ("", ""), I; I2, i, j);
@@ -246,6 +249,8 @@ int main(int argc, char** argv)
       recorder().clear();
       g_sep_in_value = false;
       t.log(r, text, vals);
+      // the backend hands the message to the sinks without ONE trailing newline (the documented single-statement rule)
+      if (!text.empty() && text.back() == '\n') text.pop_back();
       g_manual->poll();
       ++g_statements;
       auto evs = recorder().snapshot();
